@@ -214,11 +214,10 @@ func (c *CompositeSearcher) SearchAt(haystack []byte, at int) (int, int, bool) {
 // consumes all 6 characters. Backtracking gives back digits until
 // [0-9]+ can match its minimum (1 character).
 func (c *CompositeSearcher) matchAt(haystack []byte, pos int) (int, bool) {
-	// Reset pre-allocated matchLengths (faster than allocating new slice)
-	for i := range c.matchLengths {
-		c.matchLengths[i] = 0
-	}
-	return c.matchAtWithBacktrack(haystack, pos, 0, c.matchLengths)
+	// The per-part lengths are not part of the result; they used to be recorded in a
+	// scratch slice kept on the searcher, which all goroutines using the Regex share
+	// (a data race on every concurrent search). nil: do not record them.
+	return c.matchAtWithBacktrack(haystack, pos, 0, nil)
 }
 
 // matchAtWithBacktrack recursively matches parts with backtracking support.
@@ -245,7 +244,9 @@ func (c *CompositeSearcher) matchAtWithBacktrack(haystack []byte, pos int, partI
 
 	// Try from greedy (max) down to minimum, backtracking if next parts fail
 	for tryLen := canConsume; tryLen >= part.minMatch; tryLen-- {
-		matchLengths[partIdx] = tryLen
+		if matchLengths != nil {
+			matchLengths[partIdx] = tryLen
+		}
 		if end, ok := c.matchAtWithBacktrack(haystack, pos+tryLen, partIdx+1, matchLengths); ok {
 			return end, true
 		}
